@@ -1199,6 +1199,9 @@ func runV0Raw(t *Toks) string {
 	v0SkipOracle(t)
 	bs := t.Hex()
 	q, st := v0Parse(bs)
+	if st == "err" {
+		return "res=none"
+	}
 	if st != "ok" {
 		return "res=" + st
 	}
